@@ -47,27 +47,46 @@ func newRaceReports() string {
 var frameRe = regexp.MustCompile(`(?m)^  (\S+)\(\)\n\s+(\S+):(\d+)`)
 
 // raceFrames extracts, for each of the two conflicting accesses of the first
-// report, the innermost function that belongs to the code under test.
+// report, the innermost non-runtime function. inRepo is false when one of the
+// accesses was made by the simulator or the harness itself (their frames sit
+// between the runtime and the code under test): that is machinery trouble.
 func raceFrames(report string) (funcs []string, inRepo bool) {
 	blocks := strings.Split(report, "\n\n")
+	inRepo = true
+	n := 0
 	for _, b := range blocks {
-		if !(strings.HasPrefix(strings.TrimSpace(b), "Read at") || strings.HasPrefix(strings.TrimSpace(b), "Write at") ||
-			strings.HasPrefix(strings.TrimSpace(b), "Previous read at") || strings.HasPrefix(strings.TrimSpace(b), "Previous write at") ||
-			strings.Contains(b, "WARNING: DATA RACE")) {
+		tb := strings.TrimSpace(b)
+		if i := strings.Index(tb, "WARNING: DATA RACE"); i >= 0 {
+			tb = strings.TrimSpace(tb[i+len("WARNING: DATA RACE"):])
+		}
+		if !(strings.HasPrefix(tb, "Read at") || strings.HasPrefix(tb, "Write at") ||
+			strings.HasPrefix(tb, "Previous read at") || strings.HasPrefix(tb, "Previous write at") ||
+			strings.HasPrefix(tb, "Atomic") || strings.HasPrefix(tb, "Previous atomic")) {
 			continue
 		}
-		for _, m := range frameRe.FindAllStringSubmatch(b, -1) {
+		for _, m := range frameRe.FindAllStringSubmatch(tb, -1) {
 			fn, file := m[1], m[2]
-			if strings.Contains(file, "github.com/pentops/j5/") && !strings.Contains(file, "zzverif") {
-				short := fn[strings.LastIndex(fn, "/")+1:]
-				funcs = append(funcs, short)
-				inRepo = true
-				break
+			if strings.HasPrefix(fn, "runtime.") || strings.HasPrefix(file, "internal/runtime/") || strings.HasPrefix(file, "runtime/") {
+				continue
 			}
-		}
-		if len(funcs) >= 2 {
+			short := fn[strings.LastIndex(fn, "/")+1:]
+			funcs = append(funcs, short)
+			if !strings.Contains(file, "github.com/pentops/j5/") || strings.Contains(file, "zzverif") {
+				// dependency frames (protobuf-go, encoding/json, ...) count as code under test's
+				// responsibility only if reached from it; harness/simulator frames never do
+				if strings.Contains(file, "zzverif") {
+					inRepo = false
+				}
+			}
 			break
 		}
+		n++
+		if n >= 2 {
+			break
+		}
+	}
+	if len(funcs) == 0 {
+		inRepo = false
 	}
 	return funcs, inRepo
 }
@@ -154,21 +173,56 @@ func runSim(w *Workload, prep [][]*Prepared, warm []*Prepared, cfg RunCfg, keepE
 
 // Admissible is, per operation, the set of outcomes the call has in some
 // sequential execution of the same workload on one shared instance.
+// Admissible is the sequential reference of one workload.
+//
+// For a call that succeeds when run alone (on a fresh private instance) the
+// property allows exactly that result. For a call that fails alone, any
+// failing class that some sequential execution on a shared instance exhibits
+// is allowed (this is what tolerates the sequential quirk of §9: the second
+// use of an unreflectable type panics where the first returned an error), a
+// success is not.
 type Admissible struct {
-	sets   [][]map[string]Outcome
-	orders int
-	alone  [][]Outcome
+	alone      [][]Outcome
+	seqClasses [][]map[string]bool
+	orders     int
 	// SeqDeadlock: some purely sequential execution of the workload blocked forever
 	SeqDeadlock bool
-}
-
-func (a *Admissible) add(t, i int, o Outcome) {
-	a.sets[t][i][o.Key()] = o
+	// SeqViolation: a purely sequential execution already returns, for a call that succeeds
+	// alone, something else (history dependence of the shared instance or of process-wide state)
+	SeqViolation *Violation
 }
 
 func (a *Admissible) has(t, i int, o Outcome) bool {
-	_, ok := a.sets[t][i][o.Key()]
-	return ok
+	al := a.alone[t][i]
+	if al.Class == "ok" {
+		return o.Class == "ok" && o.Canon == al.Canon
+	}
+	if o.Class == "ok" || o.Class == "not_run" {
+		return false
+	}
+	return o.Class == al.Class || a.seqClasses[t][i][o.Class]
+}
+
+// addSeq records the outcome of a sequential execution.
+func (a *Admissible) addSeq(w *Workload, t, i int, o Outcome, how string) {
+	al := a.alone[t][i]
+	if al.Class != "ok" {
+		if o.Class != "ok" {
+			a.seqClasses[t][i][o.Class] = true
+			return
+		}
+	} else if o.Class == "ok" && o.Canon == al.Canon {
+		return
+	}
+	if a.SeqViolation == nil {
+		cls := "result_differs"
+		if o.Class == "panic" {
+			cls = "panic"
+		}
+		a.SeqViolation = &Violation{Class: cls, Task: t, Op: i, OpSpec: w.Tasks[t][i].String(),
+			Detail: fmt.Sprintf("even in a purely sequential execution (%s) the call returned %s:%s %s\nrun alone on a fresh instance it returns %s:%s %s",
+				how, o.Class, o.Canon, truncate(o.Text, 800), al.Class, al.Canon, firstLine(al.Text))}
+	}
 }
 
 // runSequential executes the workload with the given global order of
@@ -248,20 +302,32 @@ func permutations(n int) [][]int {
 }
 
 func computeAdmissible(w *Workload, prep [][]*Prepared, warm []*Prepared, seed uint64, merges int) *Admissible {
-	a := &Admissible{sets: make([][]map[string]Outcome, len(w.Tasks)), alone: make([][]Outcome, len(w.Tasks))}
+	a := &Admissible{alone: make([][]Outcome, len(w.Tasks)), seqClasses: make([][]map[string]bool, len(w.Tasks))}
 	for t := range w.Tasks {
-		a.sets[t] = make([]map[string]Outcome, len(w.Tasks[t]))
+		a.seqClasses[t] = make([]map[string]bool, len(w.Tasks[t]))
 		a.alone[t] = make([]Outcome, len(w.Tasks[t]))
 		for i := range w.Tasks[t] {
-			a.sets[t][i] = map[string]Outcome{}
+			a.seqClasses[t][i] = map[string]bool{}
 			// (i) alone, on a fresh private instance (cannot block: nothing was used before)
-			env := newEnv(w.Codec)
-			o := execOp(env, prep[t][i])
-			a.alone[t][i] = o
-			a.add(t, i, o)
+			a.alone[t][i] = execOp(newEnv(w.Codec), prep[t][i])
 		}
 	}
-	addRun := func(order [][2]int) {
+	// (i') alone again, in the reverse order: "alone" must not depend on what other fresh
+	// instances did earlier in the process (package-level pools, memos)
+	for t := len(w.Tasks) - 1; t >= 0; t-- {
+		for i := len(w.Tasks[t]) - 1; i >= 0; i-- {
+			o := execOp(newEnv(w.Codec), prep[t][i])
+			al := a.alone[t][i]
+			if o.Class != al.Class || (o.Class == "ok" && o.Canon != al.Canon) {
+				if a.SeqViolation == nil {
+					a.SeqViolation = &Violation{Class: "result_differs", Task: t, Op: i, OpSpec: w.Tasks[t][i].String(),
+						Detail: fmt.Sprintf("the call, run alone on a fresh instance, returned %s:%s the first time and %s:%s %s the second time in the same process (only other fresh instances were used in between): process-wide state leaks between instances",
+							al.Class, al.Canon, o.Class, o.Canon, truncate(o.Text, 600))}
+				}
+			}
+		}
+	}
+	addRun := func(order [][2]int, how string) {
 		if a.SeqDeadlock {
 			return
 		}
@@ -270,10 +336,8 @@ func computeAdmissible(w *Workload, prep [][]*Prepared, warm []*Prepared, seed u
 			a.SeqDeadlock = true
 			return
 		}
-		for t := range out {
-			for i := range out[t] {
-				a.add(t, i, out[t][i])
-			}
+		for _, st := range order {
+			a.addSeq(w, st[0], st[1], out[st[0]][st[1]], how)
 		}
 		a.orders++
 	}
@@ -283,29 +347,31 @@ func computeAdmissible(w *Workload, prep [][]*Prepared, warm []*Prepared, seed u
 		perms = perms[:24]
 	}
 	for _, p := range perms {
-		addRun(taskMajor(w, p))
+		addRun(taskMajor(w, p), fmt.Sprintf("tasks one after the other in order %v on one shared instance", p))
 	}
 	// (iii) random op-granular merges
 	rng := simrt.NewRng(simrt.Derive(seed, 0x5e9))
 	for k := 0; k < merges; k++ {
-		addRun(randomMerge(w, rng))
+		addRun(randomMerge(w, rng), "a random merge of the tasks' calls on one shared instance")
 	}
 	return a
 }
 
 // confirmNotSequential tries harder to find a sequential execution in which
-// op (t,i) has the observed outcome, before the outcome is called a violation.
+// the failing call (t,i) fails in the observed way, before that is called a violation.
 func confirmNotSequential(w *Workload, prep [][]*Prepared, warm []*Prepared, a *Admissible, t, i int, o Outcome, seed uint64) bool {
+	if a.alone[t][i].Class == "ok" || o.Class == "ok" {
+		return true // exact comparison: nothing to search for
+	}
 	rng := simrt.NewRng(simrt.Derive(seed, 0xc0f))
 	for k := 0; k < 300; k++ {
-		out, dead := runSequential(w, prep, warm, randomMerge(w, rng))
+		order := randomMerge(w, rng)
+		out, dead := runSequential(w, prep, warm, order)
 		if dead {
 			return true
 		}
-		for tt := range out {
-			for ii := range out[tt] {
-				a.add(tt, ii, out[tt][ii])
-			}
+		for _, st := range order {
+			a.addSeq(w, st[0], st[1], out[st[0]][st[1]], "a random merge")
 		}
 		if a.has(t, i, o) {
 			return false
@@ -381,9 +447,9 @@ func judge(w *Workload, prep [][]*Prepared, warm []*Prepared, a *Admissible, res
 			if !confirmNotSequential(w, prep, warm, a, t, i, o, seed) {
 				continue
 			}
-			var adm []string
-			for _, x := range a.sets[t][i] {
-				adm = append(adm, x.Class+":"+x.Canon+" "+firstLine(x.Text))
+			adm := []string{a.alone[t][i].Class + ":" + a.alone[t][i].Canon + " " + firstLine(a.alone[t][i].Text)}
+			for c := range a.seqClasses[t][i] {
+				adm = append(adm, c+" (in some sequential execution)")
 			}
 			sort.Strings(adm)
 			cls := "result_differs"
@@ -391,7 +457,7 @@ func judge(w *Workload, prep [][]*Prepared, warm []*Prepared, a *Admissible, res
 				cls = "panic"
 			}
 			out = append(out, &Violation{Class: cls, Task: t, Op: i, OpSpec: w.Tasks[t][i].String(),
-				Detail: fmt.Sprintf("under simulation the call returned %s:%s %s\nin every sequential execution (%d orders) it returns one of: %s",
+				Detail: fmt.Sprintf("under simulation the call returned %s:%s %s\nrun alone it returns (and %d sequential executions on a shared instance agree): %s",
 					o.Class, o.Canon, truncate(o.Text, 1200), a.orders, strings.Join(adm, " | "))})
 			found = true
 		}
